@@ -10,9 +10,12 @@ MODULES = [
     "contracts.c_tzcache",
     "contracts.c_strict",
     "contracts.c_fresh",
+    "contracts.c_tzparse",
 ]
 
 STANDINS = [
+    {"name": "tz_spellings", "module": "standins.tz_spellings", "props": ["C11"],
+     "timeout": {"quick": 900, "thorough": 3600}},
 ]
 
 # level claimed per property (must match MANIFEST.json)
@@ -25,6 +28,7 @@ LEVELS = {
     "C19": "proof",
     "C10": "proof",
     "C04": "proof",
+    "C11": "other",
 }
 
 _COMMON = [
